@@ -43,6 +43,7 @@ Definition result := (nat * nat * report)%type.   (* trial id, index in the tria
 
 Record params := {
   n_workers : nat; async : bool; wait_completion : bool; max_failures : nat;
+  sjwd : bool;   (* start_jobs_without_delay (default True) *)
   c_wallclock : option Q; c_evals : option Z; c_started : option Z; c_completed : option Z;
   c_finished : option Z; c_cost : option Q; c_min_metric : option Q; c_max_metric : option Q }.
 
@@ -370,12 +371,6 @@ Fixpoint schedule_k (k : nat) (st : state) : state * sched_out :=
 
 Definition sleep (st : state) : state := emit ECbSleep st.
 
-Definition schedule_new_tasks (st : state) : state * sched_out :=
-  let threshold := if async prm then n_workers prm else 1%nat in
-  let busy := length (s_running st) in
-  if Nat.leb threshold busy then (sleep st, SOk)
-  else schedule_k (n_workers prm - busy) st.
-
 (* ---- finally block --------------------------------------------------------- *)
 (* TrialBackend.stop_all: snapshot of all statuses, stop_trial for the in-progress ones *)
 Definition stop_fold (snap : nat -> btrial) (s : state) (t : nat) : state :=
@@ -423,23 +418,27 @@ Definition poll (st : state) : state * option error :=
       (set_running st (remove_all (map fst done) (s_running st)), None)
   end.
 
-(* ---- start_jobs_without_delay=False: _schedule_new_tasks asks the backend for the busy trials ------------
-   ScriptedBackend.busy_trial_ids looks at every active worker (like LocalBackend, which re-reads the job
-   status) and returns the active ones. /repo 1516ffc: num_busy_workers = max(len(busy_trial_ids),
-   len(running_trials_ids)) - a running trial whose job is done already still counts as busy until its final
-   status has been fetched - and the trials started are added to the caller's running set.
-   (Before that commit the code rebound its local name running_trials_ids to set(busy ids) when fewer workers were
-   busy than trials running, so trials started in that call were never polled: F-C02-2.) *)
+(* ---- Tuner._schedule_new_tasks, both settings of start_jobs_without_delay ------------------------------------
+   True (default): the trials in running_trials_ids count as busy.
+   False: the backend is asked for the busy trials. ScriptedBackend.busy_trial_ids looks at every active worker
+   (like LocalBackend, which re-reads the job status) and returns the active ones; /repo 1516ffc:
+   num_busy_workers = max(len(busy_trial_ids), len(running_trials_ids)) - a running trial whose job is done already
+   still counts as busy until its final status has been fetched - and the trials started are added to the caller's
+   running set. (Before that commit the code rebound its local name running_trials_ids to set(busy ids) when fewer
+   workers were busy than trials running, so trials started in that call were never polled: F-C02-2.) *)
 Definition busy_look (st : state) : state * list nat :=
   let ids := seq 0 (s_ntrials st) in
   let st1 := all_trial_results ids st in
   let busy := filter (fun t => active (b_w (s_bt st1 t))) ids in
   (emit (EBBusy busy) st1, busy).
 
-Definition schedule_new_tasks_busy (st : state) : state * sched_out :=
+Definition count_busy (st : state) : state * nat :=
+  if sjwd prm then (st, length (s_running st))
+  else let '(st1, busy) := busy_look st in (st1, Nat.max (length busy) (length (s_running st1))).
+
+Definition schedule_new_tasks (st : state) : state * sched_out :=
   let threshold := if async prm then n_workers prm else 1%nat in
-  let '(st, busy) := busy_look st in
-  let nbusy := Nat.max (length busy) (length (s_running st)) in
+  let '(st, nbusy) := count_busy st in
   if Nat.leb threshold nbusy then (sleep st, SOk)
   else schedule_k (n_workers prm - nbusy) st.
 
@@ -468,10 +467,7 @@ Fixpoint loop_gen (sched : state -> state * sched_out) (fuel : nat) (st : state)
       else (st, LExit None)
   end.
 
-(* the loop of Tuner.run with start_jobs_without_delay=True (default; all theorems are about this one) ... *)
 Definition loop := loop_gen schedule_new_tasks.
-(* ... and with start_jobs_without_delay=False *)
-Definition loop_b := loop_gen schedule_new_tasks_busy.
 
 Definition run_loop (fuel : nat) : state * loop_exit :=
   let '(st, c) := stop_condition (emit ECbTuningStart init_state) in
@@ -479,17 +475,6 @@ Definition run_loop (fuel : nat) : state * loop_exit :=
 
 Definition run (fuel : nat) : state * outcome :=
   let '(st, ex) := run_loop fuel in
-  match ex with
-  | LFuel => (st, OutOfFuel)
-  | LExit e => finalize st e
-  end.
-
-Definition run_loop_b (fuel : nat) : state * loop_exit :=
-  let '(st, c) := stop_condition (emit ECbTuningStart init_state) in
-  loop_b fuel st c false.
-
-Definition run_b (fuel : nat) : state * outcome :=
-  let '(st, ex) := run_loop_b fuel in
   match ex with
   | LFuel => (st, OutOfFuel)
   | LExit e => finalize st e
